@@ -52,15 +52,20 @@ def wire_of(eng, cfg, frame, hdr_len):
     return list(frame)
 
 
-def deliver_assertions(eng, ctx, cfg, stream, frames, payloads, headers, cutsets, label):
-    """frames: spec frames (lists of terms) in order. Asserts exact delivery for each chunking."""
+def deliver_assertions(eng, ctx, cfg, stream, frames, payloads, headers, cutsets, label, twin=None):
+    """frames: spec frames (lists of terms) in order. Asserts exact delivery for each chunking. twin: chunks read by a second
+    reader object of the same configuration after the first call of the reader under test."""
     exp_w = [SBytes(f) for f in frames]
     first = True
     for cuts in cutsets:
         chunks = HC.split(stream, cuts)
         w = {"kind": "hdlc", "cfg": list(cfg), "chunks": chunks, "expect": exp_w, "exact": True,
              "payloads": [None if not p else SBytes(p) for p in payloads]}
-        _, got = HC.read_chunks(cfg, chunks)
+        if twin:
+            w["twin"] = twin
+            _, got = HC.read_chunks_twin(cfg, chunks, twin)
+        else:
+            _, got = HC.read_chunks(cfg, chunks)
         if first:
             ctx.witness, ctx.obs, first = w, HC.sig(got), False
             ctx.nontrivial()
@@ -126,6 +131,25 @@ def family_h(cfg, shapes, pay_len, q):
     return path
 
 
+def bystander(cfg, k):
+    """two well-formed frames with free control/payload octets to the reader under test, cut once at every position; between the
+    two calls another reader object of the same configuration reads a stream ending in free octets. Delivery must be unchanged."""
+    def path(eng, ctx):
+        frames, payloads, headers, wire = [], [], [], [0x7E]
+        for i in range(2):
+            dst, src = concrete_addr(1, 0x02 + 0x10 * i), concrete_addr(1, 0x20 + 0x10 * i)
+            ctrl = sym_octet(f"c{i}")
+            pay = [sym_octet(f"p{i}_{j}") for j in range(k if i == 0 else 0)]
+            f = HC.build_frame(dst, src, ctrl, pay, fmt_type=0xA)
+            frames.append(f); payloads.append(pay); headers.append({"dst": dst, "src": src, "control": ctrl, "fmt": 0xA})
+            wire += wire_of(eng, cfg, f, 5) + [0x7E]
+        stream = SBytes(wire)
+        other = [SBytes([0x7E] + ref.build_frame([0x03], [0x21], 0x13, [0x41])[:-1]), SBytes([sym_octet("t0"), sym_octet("t1")])]
+        n = len(stream)
+        deliver_assertions(eng, ctx, cfg, stream, frames, payloads, headers, [(c,) for c in range(1, n)], "bystander reader", twin=other)
+    return path
+
+
 def maxsize(cfg, total, free_positions):
     """one frame of `total` octets with a flag/escape-dense concrete payload, a few free payload octets and a free control octet,
     followed by a small frame; cuts around the frame end and in the middle."""
@@ -165,6 +189,9 @@ def scenarios(tier):
                             bounds={"free": "format type, S bit, every address octet (low bits as the standard requires), control", "payload": "empty (header-only frame)", "address_shapes": [list(s) for s in hs],
                                     "splittings": "every single cut + byte-at-a-time", "configuration": HC.cfg_name(cfg)}, domains=("hdlc",), frontier=5, assumptions=A, replay_cap=60,
                             engine_opts={"timeout_ms": 60000}))
+        out.append(Scenario(f"bystander reader object fed between the calls {HC.cfg_name(cfg)}", bystander(cfg, 1 if q else 2),
+                            bounds={"frames": 2, "free": f"control octets + {1 if q else 2} payload octet(s) of the frames; the last 2 octets read by the other reader", "splittings": "every single cut; the other reader reads after the first call",
+                                    "configuration": HC.cfg_name(cfg)}, domains=("hdlc",), frontier=5, assumptions=A, replay_cap=40))
         if q and cfg in ((True, False), (False, False)):
             out.append(Scenario(f"max-size frame 2047 octets, flag/escape-dense payload, free control octet {HC.cfg_name(cfg)}", maxsize(cfg, 2047, (-1,)),
                                 bounds={"frame_octets": 2047, "payload": "concrete, every 5th octet 7E and every 7th 7D (stuffed on the wire: > 2047 wire octets)", "free": "control octet and last payload octet (so that the FCS octets take every value, 7E included)", "configuration": HC.cfg_name(cfg)},
